@@ -153,6 +153,9 @@ def check_sampler_precision(chk, quick):
         combos = combos[::2] + [("minipcn_smc", "torch", "f64"), ("minipcn_smc", "numpy", "f32")]
     for s, n, w in combos:
         cfg = {"sampler": s, "ns": n, "width": w, "n_samples": 8, "kernel_steps": 1, "seed": 3, "dims": 2, "half": 10.0, "n_final_samples": 12 if s.endswith("smc") else None}
+        if s != "importance":
+            # a proposal that over-covers the prior box: the initial population is assembled from several proposal batches
+            cfg.update(prop_sigma=9.0, half=6.0)
         if n == "jax" and s in ("minipcn", "emcee_smc"):
             cfg["precond"] = {"bounded_to_unbounded": True, "bounded_transform": "logit", "affine_transform": False}
         case = {"level": "sampler", "cfg": cfg}
@@ -169,6 +172,10 @@ def check_sampler_precision(chk, quick):
                 v = getattr(smp, f, None)
                 if v is not None and (ns.width_of(v) != w or ns.ns_of(v) != n):
                     bad.append(f"{name}.{f}: {ns.ns_of(v)}/{ns.width_of(v)}")
+                elif v is not None and w == "f64" and f == "x":
+                    a = np.asarray(ns.to_np(v), dtype=np.float64)
+                    if a.size and np.all(a.astype(np.float32).astype(np.float64) == a):
+                        bad.append(f"{name}.{f}: labelled float64 but every value is float32-representable (rounded through float32)")
 
         look("returned", res["samples"])
         h = getattr(res["sampler"], "history", None)
